@@ -157,3 +157,10 @@ func (c *Canary) VerifSetIPID(id uint32) int {
 	}
 	return n
 }
+
+// VerifAddInterface makes the listener own the addresses of one more
+// interface (a sensor with several addresses), as New does for every
+// interface it is given. To be called before Start.
+func (c *Canary) VerifAddInterface(ifc net.Interface) {
+	c.networkInterfaces = append(c.networkInterfaces, ifc)
+}
